@@ -33,8 +33,8 @@ run_case() {  # name patch expect(static) expect(probe)
   [ $rc -eq 2 ] && { tail -5 "$WT/log"; echo "selftest error: audit could not run on $name"; exit 2; }
   local got_static=hold got_probe=hold
   grep -q '^premise CHANGED: src/' "$WT/log" && got_static=changed
-  grep -q '^premise CHANGED: dynamic probe: \(a result depends\|the multi-thread history\)' "$WT/log" && got_probe=changed
-  local steps; steps="$(sed -n 's/.*dynamic probe:.*(\(minimised to [^;]*\);.*/\1/p' "$WT/log" | head -1)"
+  grep -q '^premise CHANGED: dynamic probe: ' "$WT/log" && got_probe=changed
+  local steps; steps="$(sed -n 's/^premise CHANGED: dynamic probe: \(.*\) (replay:.*/\1/p' "$WT/log" | head -1 | cut -c1-90)"
   local verdict=ok
   { [ "$got_static" = "$want_static" ] && [ "$got_probe" = "$want_probe" ]; } || { verdict=UNEXPECTED; bad=1; }
   printf '%-62s static=%-7s probe=%-7s audit_exit=%s %s %s\n' "$name" "$got_static" "$got_probe" "$rc" "${steps:+[$steps]}" "$verdict"
